@@ -377,7 +377,7 @@ def step (s : Sys) : Op → Option Sys
       if x.pc = .marked ∧ !x.loc.canceled ∧ jobs ≠ [] ∧ jobs.Nodup ∧
           x.out.length < s.sc.maxNodes ∧
           (∀ j ∈ jobs, x.loc.st j = .ns ∧ j ∉ x.pend ∧
-            (∀ b ∈ x.loc.blk j, b ∈ jobs)) ∧
+            (∀ b ∈ x.loc.blk j, b ∈ jobs) ∧ j < s.sc.n) ∧
           freshHid s x hid then
         let b : Batch := { bid := x.bidx, owner := p, jobs := jobs, handed := x.loc.blk, hid := hid }
         let s' := { s with batches := s.batches ++ [b],
